@@ -954,8 +954,27 @@ class Elem:
         return Elem(self.container, self.binder, self.path + (p,), self.kind, self.snapshot)
 
 
+def _one_or_many(e):
+    """`[x] if <x is a single item> else list(x)` (a one-or-many normaliser): x, else None"""
+    if not isinstance(e, ast.IfExp):
+        return None
+    for single, many in ((e.body, e.orelse), (e.orelse, e.body)):
+        if isinstance(single, (ast.List, ast.Tuple)) and len(single.elts) == 1:
+            m = many
+            while isinstance(m, ast.Call) and not m.keywords and isinstance(m.func, ast.Name) and m.func.id in ("list", "tuple") and len(m.args) == 1:
+                m = m.args[0]
+            if ast.dump(m) == ast.dump(single.elts[0]):
+                return m
+    return None
+
+
 def _strip_snapshot(e):
     snap = False
+    while True:
+        x = _one_or_many(e)
+        if x is None:
+            break
+        e, snap = x, True
     while isinstance(e, ast.Call) and not e.keywords:
         if isinstance(e.func, ast.Name) and e.func.id in ("list", "tuple", "dict", "deepcopy", "copy") and len(e.args) == 1:
             e, snap = e.args[0], True
@@ -1242,10 +1261,29 @@ def r1_private_copy_uncoupled(ctx, rid):
     is_adapt = isinstance(val, ast.Call) and isinstance(val.func, ast.Name) and ctx.repo.resolve_name(gs.module, val.func.id) == aco
     if not is_adapt and any(isinstance(c, ast.Call) and call_name(c) == "adapt_circuit" for c in ast.walk(val)):
         raise AnalysisError(f"{rid}: the sub-circuit of a row is `{norm(val)}`: adapt_circuit's result is wrapped (unrecognised form)")
-    good = is_adapt and contains(loop, val) and len(val.args) + len(val.keywords) == 3
+    good = is_adapt and contains(loop, val) and all(p in _bind_call(aco, val) for p in aco.params[:3])
     if good:
         bound = _bind_call(aco, val)
-        good = is_param(ctx, gs, bound.get(aco.params[0])) and is_param(ctx, gs, bound.get(aco.params[2]))
+
+        def callers_template(e) -> bool:
+            """the caller's template parameter - as given, or loaded from it (`template = CircuitTemplate.from_yaml(template)`) once,
+            outside the row loop: every row still gets its own deep copy from adapt_circuit (first part of this rule)"""
+            if is_param(ctx, gs, e):
+                return True
+            if not isinstance(e, ast.Name):
+                return False
+            tds = terminal_defs(ctx, gs, e)
+            pnames = {nm for d, _, nm in tds if isinstance(d, ast.arguments)}
+            if len(pnames) != 1 or not pnames <= set(gs.params):
+                return False
+            for d, v, nm in tds:
+                if isinstance(d, ast.arguments):
+                    continue
+                if contains(loop, d) or not (isinstance(v, ast.Call) and call_name(v) in ("from_yaml",) and len(v.args) == 1
+                                             and isinstance(v.args[0], ast.Name) and v.args[0].id in pnames):
+                    return False
+            return True
+        good = callers_template(bound.get(aco.params[0])) and is_param(ctx, gs, bound.get(aco.params[2]))
     if good:
         ctx.ok(rid, gs, up, "the sub-circuit of each row is the value adapt_circuit returned for the caller's template and parameter map",
                {"row_circuit": norm(val)}, label="row circuit is adapt_circuit's result")
@@ -1592,7 +1630,10 @@ class _AdaptCase:
         return False
 
     def is_map_field(self, e, field) -> bool:
-        x = expand(self.ctx, self.V, e)
+        x, _ = _strip_snapshot(expand(self.ctx, self.V, e))
+        if isinstance(x, ast.Call) and isinstance(x.func, ast.Attribute) and x.func.attr == "get" and not x.keywords and x.args \
+                and isinstance(x.args[0], ast.Constant) and x.args[0].value == field and (len(x.args) == 1 or _is_empty_literal(x.args[1])):
+            return self.is_mapping(x.func.value)                      # map[key].get(field, [])
         return isinstance(x, ast.Subscript) and isinstance(x.slice, ast.Constant) and x.slice.value == field and self.is_mapping(x.value)
 
     def from_map_list(self, e, field) -> Optional[Elem]:
@@ -1786,6 +1827,8 @@ class _AdaptCase:
                     el = elem_of_expr(ctx, V, src)
                     if el is None and not isinstance(a, (ast.Name, ast.Constant)):
                         raise AnalysisError(f"{rid}: cannot tell where get_edge's `{role}` argument `{norm(a)}` comes from (unrecognised form)")
+                    if el is not None and role == "idx" and el.path == (("*", 2), 0):
+                        el = Elem(el.container, el.binder, (2,), el.kind, el.snapshot)      # `s, t, *rest in edges` ... `rest[0]`
                     if el is None or el.kind != "elem" or el.path != (pos,) or (eloop is not None and el.binder is not eloop.binder):
                         why.append(f"get_edge's `{role}` is `{norm(a)}`, not element {pos} of the map's edge entry this record is built for")
                     else:
@@ -2688,6 +2731,124 @@ def _copy_depth(ctx, eff, rid, f, an, e: ast.Call, paths, family, depth):
     return out
 
 
+
+# --------------------------------------------------------------------------------------------
+# R9 — a skipped update is compared with the value the compiled model would use
+# --------------------------------------------------------------------------------------------
+
+def _override_attrs(ctx):
+    """Attributes of a node template through which a per-node override is stored (`self.operators[op][var] = val`): read off the
+    write path of the method CircuitTemplate.update_var calls on the node's template (same derivation as R8)."""
+    from engine.inline import inlined
+    eff = ctx.effects
+    f = inlined(ctx, ctx.repo.get_func(CIRC, "CircuitTemplate.update_var"))
+    out = set()
+    for call in walk_shallow(f.node):
+        if not (isinstance(call, ast.Call) and isinstance(call.func, ast.Attribute)) or (isinstance(call.func.value, ast.Name) and call.func.value.id == f.self_name):
+            continue
+        targets, how = ctx.cg.resolve_call(f, call)
+        if how == "by-name":
+            ks = _made_classes(ctx, f, call.func.value, 0)
+            fam = set()
+            for k in ks:
+                fam |= set(k.mro) | set(ctx.repo.subclasses(k))
+            targets = [t for t in targets if t.cls in fam]
+        for t in targets:
+            for prm, p in eff.mutates(t, None):
+                if prm == t.self_name and len(p) >= 2:
+                    out.add(p[0][1:])
+    return out
+
+
+def r9_skip_compares_with_effective_value(ctx, rid):
+    """Where adapt_circuit leaves a node variable alone because "it has that value already", the value it compares with must be the
+    value the compiled model would use: the node-level override (stored where update_var writes it) first, the operator's default
+    only when the node has none - the frontend's own resolution order.  Comparing with the operator default alone skips the update
+    of a node that carries an override, and the row is simulated with the override while the table lists the grid value."""
+    ac = _func(ctx, "adapt_circuit")
+    attrs = _override_attrs(ctx)
+    ctx.require(attrs, f"{rid}: cannot tell where a per-node override is stored (write path of the node template's update_var not found)")
+    n = 0
+    for V in variants(ctx, ac)[:1]:
+        case = _AdaptCase(ctx, rid, V, _Sink())
+        cmps = []
+        for c in ordered(walk_shallow(V.node)):
+            if isinstance(c, ast.Compare) and len(c.ops) == 1 and isinstance(c.ops[0], (ast.Eq, ast.NotEq)):
+                a, b = c.left, c.comparators[0]
+                for val, cur in ((a, b), (b, a)):
+                    if case.is_val(val) and isinstance(resolve(ctx, V, cur), ast.Call):
+                        cmps.append((c, resolve(ctx, V, cur)))
+        for c, cur in cmps:
+            h = ctx.repo.resolve_name(V.module, cur.func.id) if isinstance(cur.func, ast.Name) else None
+            if not isinstance(h, FunctionInfo):
+                continue
+            H = syn(ctx, h)
+            # value reads inside the helper: subscripts / .get() by a non-constant key
+            over, other = [], []
+            for x in ordered(walk_shallow(H.node)):
+                base = key = None
+                if isinstance(x, ast.Subscript) and isinstance(x.ctx, ast.Load) and not isinstance(x.slice, (ast.Constant, ast.Slice)):
+                    base, key = x.value, x.slice
+                elif isinstance(x, ast.Call) and isinstance(x.func, ast.Attribute) and x.func.attr == "get" and x.args and not isinstance(x.args[0], ast.Constant):
+                    base, key = x.func.value, x.args[0]
+                if base is None or not isinstance(key, ast.Name):
+                    continue
+                eb = expand(ctx, H, base)
+                names = {a.attr for a in ast.walk(eb) if isinstance(a, ast.Attribute)}
+                if not names:
+                    continue                                   # a plain local / parameter container: not a template attribute
+                # the variable name is the LAST key of the access: template.<attr>[...][var]
+                last_attr = eb.attr if isinstance(eb, ast.Attribute) else None
+                if names & attrs:
+                    if isinstance(eb, ast.Attribute) and eb.attr in attrs:
+                        continue                               # <node>.operators[op]: selects the operator's entry, not yet the variable
+                    over.append(x)
+                elif last_attr is not None:
+                    other.append((x, last_attr))
+            if not over and not other:
+                continue
+            n += 1
+            label = f"skip decision `{norm(c, 60)}` compares with the effective value"
+            if other and not over:
+                x, a = other[0]
+                ctx.violation(rid, ac, c, f"adapt_circuit skips an update when the new value equals `{norm(cur)}`, and {h.qualname} takes that value "
+                              f"from `{norm(x)}` (the `{a}` of the operator template) without ever looking at the node's own "
+                              f"`{'/'.join(sorted(attrs))}` entry, which is where update_var stores a per-node override and which wins when the model "
+                              f"is compiled: a node that carries an override keeps it although the grid row (and the returned table) names the "
+                              f"operator's default value", label=label)
+                continue
+            # both are read: the override must take precedence
+            ok_prec = True
+            for x, a in other:
+                p = parent(x)
+                guarded = False
+                for anc in [x] + list(ancestors(x)):
+                    q = parent(anc)
+                    if isinstance(q, ast.IfExp) and q.orelse is anc and any(isinstance(t, ast.Compare) and isinstance(t.ops[0], ast.In) for t in ast.walk(q.test)):
+                        guarded = True
+                    if isinstance(q, ast.IfExp) and q.body is anc and any(isinstance(t, ast.Compare) and isinstance(t.ops[0], ast.NotIn) for t in ast.walk(q.test)):
+                        guarded = True
+                    if isinstance(q, ast.Call) and isinstance(q.func, ast.Attribute) and q.func.attr == "get" and len(q.args) == 2 and q.args[1] is anc:
+                        guarded = True
+                    if isinstance(q, ast.If) and any(anc is s or contains(s, anc) for s in q.orelse) and \
+                            any(isinstance(t, ast.Compare) and isinstance(t.ops[0], ast.In) for t in ast.walk(q.test)):
+                        guarded = True
+                    if isinstance(q, ast.If) and any(anc is s or contains(s, anc) for s in q.body) and \
+                            any(isinstance(t, ast.Compare) and isinstance(t.ops[0], ast.NotIn) for t in ast.walk(q.test)):
+                        guarded = True
+                    if isinstance(q, ast.ExceptHandler):
+                        guarded = True                         # try: override[var] except KeyError: default[var]
+                ok_prec = ok_prec and guarded
+            if ok_prec:
+                ctx.ok(rid, ac, c, f"{h.qualname} reads the node's own override first and the operator default only where the node has none",
+                       label=label)
+            else:
+                raise AnalysisError(f"{rid}: {h.qualname} reads both the node's override and `{norm(other[0][0])}`, but the order of "
+                                    f"precedence has a form that is not recognised")
+    if n == 0:
+        ctx.info(rid, ac, ac.node, "adapt_circuit does not skip updates by comparing with a current value", label="no skip decision")
+
+
 RULES = [
     ("C17-R1", r1_private_copy_uncoupled, 5),
     ("C17-R2", r2_one_key_per_row, 4),
@@ -2697,4 +2858,5 @@ RULES = [
     ("C17-R6", r6_edge_update_selects_one_edge, 1),
     ("C17-R7", r7_outputs_located_per_node, 2),
     ("C17-R8", r8_override_written_into_unshared_copy, 1),
+    ("C17-R9", r9_skip_compares_with_effective_value, 0),
 ]
